@@ -104,7 +104,9 @@ class G:
             if not cand: return "resmut 0"
             d = r.choice(cand)
             if top: self.nS += 1; self.nT += 1
-            return "once %d %s" % (d, self.trigs(0, 3))
+            # a third of the one-off reactors are made from a zero-sized function item (what user code usually passes;
+            # the harness has four such functions, for definitions 0-3): seeded V03
+            return "%s %d %s" % ("oncefn" if d < 4 and self.r.random() < 0.35 else "once", d, self.trigs(0, 3))
         if cat == "revoke":
             return "revoke t%d" % r.randrange(max(1, self.nT + 1))
         if cat == "life":
@@ -312,7 +314,7 @@ def gen_sharedkey(rng):
         x = rng.random()
         d = rng.randrange(g.ndefs)
         if x < 0.5: setup.append("on r %d %s" % (d, " ".join(ts))); nT += 1; nS += 1
-        elif x < 0.65: setup.append("once %d %s" % (d, " ".join(ts))); nT += 1; nS += 1
+        elif x < 0.65: setup.append("%s %d %s" % ("oncefn" if d < 4 and rng.random() < 0.35 else "once", d, " ".join(ts))); nT += 1; nS += 1
         elif x < 0.8: setup.append("on c %d %s" % (d, " ".join(ts))); nS += 1
         else: setup.append("on p %d %s" % (d, " ".join(ts))); nS += 1
         if nS and rng.random() < 0.2:
@@ -1155,7 +1157,8 @@ def gen_once2(rng):
         n = rng.choice([0, 1, 1, 2, 2, 3])
         ks = [rng.choice(keys) for _ in range(n)]
         if rng.random() < 0.3: ks = [k for k in keys if k[0] == "dsp"][:rng.randint(2, 3)]
-        setup.append("once %d %s" % (rng.randrange(g.ndefs), " ".join(key_str(*k) for k in ks))); nT += 1
+        dd = rng.randrange(g.ndefs)
+        setup.append("%s %d %s" % ("oncefn" if dd < 4 and rng.random() < 0.35 else "once", dd, " ".join(key_str(*k) for k in ks))); nT += 1
     if rng.random() < 0.4: setup.append("on %s %d %s" % (rng.choice("pc"), rng.randrange(g.ndefs), key_str(*rng.choice(keys))))
     out.append("top acts %d" % len(setup)); out += setup
     for _ in range(rng.randint(2, 6)):
